@@ -166,7 +166,8 @@ func (g *Graph) EdgeKeys() [][2]string {
 // skipped unless the model knows them.
 func ContentDiff(w map[string]Placement, g *Graph, instanceOwn map[string]bool) string {
 	eq := func(a, b data.Point) bool {
-		return a.Time.UnixNano() == b.Time.UnixNano() && (a.Value == b.Value || (a.Value != a.Value && b.Value != b.Value)) && a.Text == b.Text && a.Tombstone == b.Tombstone
+		return a.Time.UnixNano() == b.Time.UnixNano() && (a.Value == b.Value || (a.Value != a.Value && b.Value != b.Value)) && a.Text == b.Text && a.Tombstone == b.Tombstone &&
+			a.Origin == b.Origin && string(a.Data) == string(b.Data)
 	}
 	var keys []string
 	for k := range w {
